@@ -29,6 +29,7 @@ pub fn property() -> Property {
             (Box::new(AuthFam), 3_000, 60_000),
             (Box::new(ServerFam), 300, 6_000),
             (Box::new(OrderFam), 2_000, 50_000),
+            (Box::new(GlueFam), 16, 300),
         ],
     }
 }
@@ -388,6 +389,61 @@ impl Family for OrderFam {
         out.nt(pre && padded >= 2);
         out.class_if(pre, "forced-preemption");
         out.class_if(lens.len() > n as usize, "ran-past-stop");
+        Ok(out)
+    }
+}
+
+// ------------------------------------------------------------------------------------------
+// family `glue` (Lab-S, child process): what the real Client puts on the wire for a new session
+// is consistent - preamble padding and first packet follow the scheme the session announces
+
+use crate::props::c19::{self, PushCase, ServerScheme};
+
+pub struct GlueFam;
+
+impl Family for GlueFam {
+    type Case = PushCase;
+    fn name(&self) -> &'static str {
+        "glue"
+    }
+    fn strategy(&self, _tier: Tier) -> BoxedStrategy<PushCase> {
+        (0u8..4, proptest::collection::vec(((0u8..4).prop_map(ServerScheme::Fam), 1u8..3), 1..=3))
+            .prop_map(|(client_scheme, sessions)| PushCase { default_used: false, client_scheme, sessions })
+            .boxed()
+    }
+    fn case_budget_s(&self) -> u64 {
+        200
+    }
+    fn run(&self, case: &PushCase, _cx: &CaseCtx) -> CaseResult {
+        let mut out = Outcome::new();
+        let child = c19::run_child(case)?;
+        for (si, obs) in child.conns.iter().enumerate() {
+            if !obs.auth_ok {
+                continue;
+            }
+            // the scheme this session announces
+            let Some(j) = (0u8..8).find(|j| obs.md5.as_deref() == Some(c19::fam_md5(*j).as_str())) else { continue };
+            let pp = obs.preamble_padding.unwrap_or(usize::MAX);
+            ensure!(
+                pp == 20 + j as usize,
+                "C05.auth",
+                "session {si} announces scheme Fam({j}) (line 0 = {}) but its authentication preamble carries {pp} padding bytes (history {:?})",
+                20 + j as usize,
+                case.sessions
+            );
+            let pk = c19::split_packets(&obs.frames);
+            if let Some((total, padded, _)) = pk.first() {
+                ensure!(
+                    *padded && *total == c19::fam_line_size(j, 1),
+                    "C05.shape",
+                    "session {si} announces scheme Fam({j}) but its first packet is {total} bytes, line 1 prescribes {}",
+                    c19::fam_line_size(j, 1)
+                );
+            }
+        }
+        out.nt(case.sessions.len() >= 2);
+        out.class_if(case.sessions.len() >= 2, "sessions>=2");
+        out.class_if(case.sessions.iter().any(|s| s.0 != ServerScheme::Fam(case.client_scheme)), "push-involved");
         Ok(out)
     }
 }
